@@ -17,6 +17,13 @@ use crate::{ensure, fail};
 pub fn compare_leaf(spec: &PacketSpec, got: &[u8]) -> Result<(), (String, String)> {
     let exp = ref_encode(spec);
     let name = spec.long_name();
+    // latitude: a BYE reason that was set to the empty string may be written as absent or as a zero
+    // length octet + fill (both are RFC 3550 6.6 images); the second one is 4 bytes longer
+    if let PacketSpec::Bye(b) = spec {
+        if b.reason.as_deref() == Some("") && got == &ref_encode_bye_empty_reason_present(b)[..] {
+            return Ok(());
+        }
+    }
     if got.len() != exp.len() {
         return Err((format!("{name}:length"), format!("image is {} bytes, RFC image is {} bytes; got {} want {}", got.len(), exp.len(), hex(got), hex(&exp))));
     }
